@@ -134,6 +134,8 @@ type Loop struct {
 	// tailForm: `for rest := xs; len(rest) > 0; rest = rest[1:]` - the phi is the remaining slice, the current element
 	// is rest[0]; there is no index
 	tailForm bool
+	// Descending: the counter runs Trip-1 .. 0
+	Descending bool
 }
 
 // Rotated: the loop is bottom-tested (the body runs before the bound test; exit paths carry a full iteration).
@@ -275,6 +277,9 @@ func countedLoop(an *ir.Analysis, h *ssa.BasicBlock) *Loop {
 					s0, isK := startT.IntConst()
 					if ok && d == 1 && y.Op == "len" && isK && s0 == -1 {
 						l.Op, l.Bound, l.RangeOver = "range", y, y.Args[0]
+					} else if ok && d == 1 && isK && s0 == -1 && s.Pol && !mentions(y, sym) {
+						// a range loop whose length the engine already resolved (range over a slice it saw being made)
+						l.Op, l.Bound = "range", y
 					} else if ok && d == 1 && s.Pol && p.To == h && entryGuard(an, h, startT, y) {
 						// bottom-tested (rotated) loop `for i := range n`: the body runs for phi, then continues iff
 						// phi+1 < n; the entry is guarded by start < n
@@ -321,6 +326,15 @@ func countedLoop(an *ir.Analysis, h *ssa.BasicBlock) *Loop {
 				l.Trip = l.Start
 			}
 		}
+		if l.Step == -1 && l.Trip == nil {
+			// for i := N-1; i >= 0; i--  (or i > -1) visits N-1 .. 0: N passes, the index is the counter itself
+			b, isK := l.Bound.IntConst()
+			if isK && (l.Op == ">=" && b == 0 || l.Op == ">" && b == -1) {
+				if n := plusOne(l.Start); n != nil {
+					l.Trip, l.Descending = n, true
+				}
+			}
+		}
 		return l
 	}
 	// head/tail form over a slice
@@ -362,6 +376,26 @@ func countedLoop(an *ir.Analysis, h *ssa.BasicBlock) *Loop {
 		}
 		if good && nBack > 0 && over != nil {
 			return &Loop{Header: h, Phi: phi, Start: ir.Const("0"), Step: 1, Op: "tail", Bound: &ir.Term{Op: "len", Args: []*ir.Term{over}}, Trip: &ir.Term{Op: "len", Args: []*ir.Term{over}}, RangeOver: over, tailForm: true}
+		}
+	}
+	return nil
+}
+
+// plusOne: the term X when t is X-1 (nil otherwise).
+func plusOne(t *ir.Term) *ir.Term {
+	if t == nil || t.Op != "bin" {
+		return nil
+	}
+	if t.Aux == "-" && len(t.Args) == 2 {
+		if k, ok := t.Args[1].IntConst(); ok && k == 1 {
+			return t.Args[0]
+		}
+	}
+	if t.Aux == "+" && len(t.Args) == 2 {
+		for i := 0; i < 2; i++ {
+			if k, ok := t.Args[i].IntConst(); ok && k == -1 {
+				return t.Args[1-i]
+			}
 		}
 	}
 	return nil
